@@ -254,6 +254,44 @@ def r4_key_identity(ctx):
                     if a["k"] in ("cp", "mv"):
                         read |= set(place_fields(a["p"]))
             bad = sorted(read & memo)
+            # transitively: methods of the same type called from eq/hash (e.g. as_cache_key()) that read a memo field. A memo
+            # is filled once and copied by Clone; when an identity field is `pub` the memo can be stale, so identity through
+            # the memo compares what the key *was*
+            via = []
+            pub_ident = [f["n"] for f in fields if f.get("pub") and f["n"] not in memo]
+            if not bad and pub_ident:
+                seen = {b.id}
+                work = [(b, [])]
+                while work:
+                    cur, chain = work.pop()
+                    for fb in prog.family(cur):
+                        for c in fb.calls:
+                            for tid in prog.call_targets(c):
+                                tb = prog.bodies.get(tid)
+                                if tb is None or tb.id in seen or tb.self_adt != adt_id or len(chain) >= 3:
+                                    continue
+                                seen.add(tb.id)
+                                rd = set()
+                                for gb in prog.family(tb):
+                                    for i, j, st in gb.stmts():
+                                        r = st["r"]
+                                        for o in r.get("o", []):
+                                            if o["k"] in ("cp", "mv"):
+                                                rd |= {re.sub(r"^upvar:(self__)?", "", x) for x in place_fields(o["p"])}
+                                        if "p" in r:
+                                            rd |= {re.sub(r"^upvar:(self__)?", "", x) for x in place_fields(r["p"])}
+                                    for c2 in gb.calls:
+                                        for a in c2.args:
+                                            if a["k"] in ("cp", "mv"):
+                                                rd |= {re.sub(r"^upvar:(self__)?", "", x) for x in place_fields(a["p"])}
+                                if rd & memo:
+                                    via.append((tb.item, sorted(rd & memo)))
+                                work.append((tb, chain + [tb.item]))
+            ctx.check(not via, rule, [adt_id, meth, "no-memo-via-method"], "%s reaches no memo field through the type's own methods" % meth,
+                      "%s::%s goes through %s, which reads the lazily filled memo %s, while the identity field(s) %s are `pub` and Clone copies a filled memo: "
+                      "a key whose field was changed after first use (or a clone of it) still compares and hashes as the old key, so the cache returns another key's value" %
+                      (adt["name"], meth, via[0][0] if via else "", via[0][1] if via else "", pub_ident), b.loc(),
+                      sample={"type": adt["name"], "method": meth, "via": via, "pub_identity_fields": pub_ident})
             ctx.check(not bad, rule, [adt_id, meth, "no-memo"], "%s ignores memo fields" % meth,
                       "%s::%s compares/hashes the memo field(s) %s (a OnceLock that is filled lazily by as_cache_key()): a stored key (memo filled) and a fresh lookup key "
                       "(memo empty) with identical identity fields are unequal, so in-memory index lookups always miss and the entry's bookkeeping (TTL, usage) is bypassed" %
